@@ -3,6 +3,7 @@ import PyElf.Spec.Reloc
 import PyElf.Spec.RelocFile
 import PyElf.Model.Relocation
 import PyElf.Model.RelocationFile
+import PyElf.Model.RelrCache
 import PyElf.Model.Env
 import PyElf.Gen.Extra_C11
 open Lean
@@ -180,7 +181,19 @@ def handle (req : Json) : Except String Json := do
     let (S, _, _, _) ← bundleOf req
     let data ← jHex req "hex"
     let r := relrInit S (some (← jNat req "offset")) (← jNat req "size") (← jNat req "entsize")
-    return Json.mkObj [("model", resJson (fun t => relrObs data t) r)]
+    -- "hist": queries on ONE table object through the model of `_cached_relocations` (Model/RelrCache `relrHist`;
+    -- Props/C08 `relr_cache_history_independent`): null = num_relocations(), an integer n = get_relocation(n)
+    let qs : List RelrQ := match req.getObjVal? "hist" with
+      | .ok (.arr a) => a.toList.filterMap fun j => match j with
+          | .null => some RelrQ.num
+          | _ => match j.getInt? with
+                 | .ok n => some (RelrQ.get n)
+                 | .error _ => none
+      | _ => []
+    let hist := resJson (fun t =>
+      let h := relrHist elfEnv data t qs
+      Json.mkObj [("answers", Json.arr (h.1.map (resJson jN)).toArray), ("cached", Json.bool h.2.map.isSome)]) r
+    return Json.mkObj [("model", resJson (fun t => relrObs data t) r), ("hist", hist)]
   | "run_dyn" =>
     let (S, _, _, _) ← bundleOf req
     let data ← jHex req "hex"
